@@ -33,6 +33,8 @@ def protocol_quick():
         scn("ABC", blk={"B": ["A"], "C": ["B"]}, flag="BC", rc={"A": 2}, groups=[G(size=3, tryadd=True, procs=1)], maxnodes=0),
         # listing order against dependency order
         scn("ABC", blk={"A": ["C"]}, flag="A", rc={"C": 1}, groups=[G(size=2, tryadd=True, procs=2)], maxnodes=2),
+        # --no-distributed-submitter: the nodes run no round of their own, only the user's try-submit-jobs moves things
+        scn("ABC", blk={"C": ["A"]}, flag="C", rc={"B": 1}, groups=[G(size=1)], maxnodes=2, dist=False),
     ]
 
 
